@@ -480,9 +480,11 @@ impl SlabRouter {
             return self.put(key, value);
         }
 
-        // Log to WAL first (if configured)
-        if let Some(wal_mutex) = &self.wal {
-            let mut wal = wal_mutex.lock();
+        // Log to WAL first (if configured). The WAL guard is held until the in-memory
+        // apply below is done, so concurrent durable writes take effect in memory in
+        // the order in which they were logged (recovery replays the log order).
+        let mut wal_guard = self.wal.as_ref().map(|m| m.lock());
+        if let Some(wal) = wal_guard.as_mut() {
 
             // Log metadata set (sync behavior depends on WalConfig::sync_mode).
             // This record alone restores the whole value on replay (including the
@@ -508,7 +510,9 @@ impl SlabRouter {
         // Apply to in-memory state
         #[cfg(neumann_verif)]
         crate::verif_hook::point("put_durable.logged");
-        self.put(key, value)
+        let result = self.put(key, value);
+        drop(wal_guard);
+        result
     }
 
     /// Delete a value durably, logging to WAL before applying.
@@ -524,9 +528,11 @@ impl SlabRouter {
             return self.delete(key);
         }
 
-        // Log to WAL first (if configured)
-        if let Some(wal_mutex) = &self.wal {
-            let mut wal = wal_mutex.lock();
+        // Log to WAL first (if configured). The WAL guard is held until the in-memory
+        // apply below is done, so concurrent durable writes take effect in memory in
+        // the order in which they were logged (recovery replays the log order).
+        let mut wal_guard = self.wal.as_ref().map(|m| m.lock());
+        if let Some(wal) = wal_guard.as_mut() {
 
             // Log embedding delete if key is in entity index
             if let Some(entity_id) = self.index.get(key) {
@@ -552,7 +558,9 @@ impl SlabRouter {
         // Apply to in-memory state
         #[cfg(neumann_verif)]
         crate::verif_hook::point("delete_durable.logged");
-        self.delete(key)
+        let result = self.delete(key);
+        drop(wal_guard);
+        result
     }
 
     /// Create a checkpoint by saving a snapshot and marking WAL position.
